@@ -3,6 +3,7 @@ from fractions import Fraction as F
 from common import cq, cb, cexn
 from plotink import plot_utils
 
+import common
 ID = "C18"
 COQ_HEADER = "From Plotink Require Import Base.Prelude Corr.C18.\nOpen Scope Q_scope."
 COQ_RUN = "run18"
@@ -87,3 +88,8 @@ def shrink(c):
                 d = dict(c); d[key] = nv
                 if d.get("lo", 0) <= d.get("hi", 0) and d.get("xmin", 0) <= d.get("xmax", 0) and d.get("ymin", 0) <= d.get("ymax", 0) and d.get("tol", 0) >= 0:
                     yield d
+
+
+def static_obligations(work, tier):
+    """the loop-free kernels are re-translated from /repo's source on every run and proved equal to the hand model"""
+    return common.kernel_obligations(work, ID, "plotink/plot_utils.py", ['checkLimits', 'checkLimitsTol', 'point_in_bounds', 'constrainLimits'])
